@@ -21,6 +21,7 @@ import (
 	"os"
 	"sort"
 	"strings"
+	"unicode/utf8"
 
 	"github.com/semihalev/twig"
 
@@ -31,17 +32,22 @@ import (
 
 // In the wrappers: \x00 = the expression, \x01 = the expression used as a condition (a conditional
 // is parenthesised), \x02 = the boolean observer suffix (" ? 'T' : 'F'", empty for values),
-// \x03 = optional space, \x04 = mandatory space.
+// \x03 = optional space, \x04 = mandatory space, \x06 = the expected value (routes only).
 type position struct {
 	name  string
 	tmpl  string
 	sub   string // name of an auxiliary template the wrapper includes
-	types string // expression types the position applies to: i s b l
+	types string // expression types the position applies to: i s b l (a large integer g counts as i)
+	// route: the position turns the value into text by something other than the print tag (`~`, a
+	// filter, join) after it has passed through the syntactic position; integers and strings only
+	route bool
+	body  string // body of the auxiliary template when it is not the plain `{{ k }}`
 }
 
 const (
 	macroV = "{% macro m(p) %}{{ p }}{% endmacro %}"
 	macroB = "{% macro m(p) %}{{ p ? 'T' : 'F' }}{% endmacro %}"
+	macroC = "{% macro m(p) %}{{ p ~ '' }}{% endmacro %}"
 )
 
 var positions = []position{
@@ -67,6 +73,22 @@ var positions = []position{
 	{name: "for-seq", tmpl: "{%\x04for\x04q\x04in\x04\x00\x04%}{{ q }},{%\x04endfor\x04%}", types: "l"},
 	{name: "set-list", tmpl: "{%\x04set\x04q\x03=\x03\x00\x04%}{% for r in q %}{{ r }},{% endfor %}", types: "l"},
 	{name: "include-list", tmpl: "{%\x04include\x04'p'\x04with\x04{\x03'k'\x03:\x03\x00\x03}\x04%}", sub: "p", types: "l"},
+	// stringification routes: the value is spelled by `~`, |trim, |join or |length of its spelling instead
+	// of the print tag, directly and after each way of handing it on (set, array / hash element, for,
+	// include variable, function / filter / macro argument)
+	{name: "concat-right", tmpl: "{{\x03(\x03\x00\x03)\x03~\x03''\x03}}", types: "is", route: true},
+	{name: "concat-left", tmpl: "{{\x03''\x03~\x03(\x03\x00\x03)\x03}}", types: "is", route: true},
+	{name: "trim", tmpl: "{{\x03(\x03\x00\x03)|trim\x03}}", types: "is", route: true},
+	{name: "spelling-length", tmpl: "{{\x03((\x03\x00\x03)\x03~\x03'')|length\x03}}", types: "is", route: true},
+	{name: "set-concat", tmpl: "{%\x04set\x04q\x03=\x03\x00\x04%}{{ q ~ '' }}", types: "is", route: true},
+	{name: "array-join", tmpl: "{{\x03[\x030\x03,\x03\x00\x03]|join(',')\x03}}", types: "is", route: true},
+	{name: "hash-concat", tmpl: "{{ {\x03'k'\x03:\x03\x00\x03}[\x03'k'\x03]\x03~\x03''\x03}}", types: "is", route: true},
+	{name: "for-concat", tmpl: "{%\x04for\x04q\x04in\x04[\x03\x00\x03]\x04%}{{ q ~ '' }}{%\x04endfor\x04%}", types: "is", route: true},
+	{name: "include-concat", tmpl: "{%\x04include\x04'p'\x04with\x04{\x03'k'\x03:\x03\x00\x03}\x04%}", sub: "p", body: "{{ k ~ '' }}", types: "is", route: true},
+	{name: "function-concat", tmpl: "{{\x03id(\x03\x00\x03)\x03~\x03''\x03}}", types: "is", route: true},
+	{name: "default-concat", tmpl: "{{\x03null|default(\x03\x00\x03)\x03~\x03''\x03}}", types: "is", route: true},
+	{name: "macro-concat", tmpl: "C{{\x03m(\x03\x00\x03)\x03}}", types: "is", route: true},
+	{name: "if-spelling", tmpl: "{%\x04if\x04(\x03\x00\x03)\x03~\x03''\x03==\x03'\x06'\x04%}T{%\x04else\x04%}F{%\x04endif\x04%}", types: "is", route: true},
 }
 
 var forSeq = func() *position {
@@ -88,7 +110,7 @@ type rendering struct {
 	sub map[string]string
 }
 
-func build(pos *position, in *inst, st style) rendering {
+func build(pos *position, in *inst, st style, want string) rendering {
 	e, _ := in.print(st)
 	typ := in.root.typ
 	cond := e
@@ -114,7 +136,10 @@ func build(pos *position, in *inst, st style) rendering {
 	if s[0] == 'L' {
 		s = longComment + s[1:]
 	}
-	s = strings.NewReplacer("\x00", e, "\x01", cond, "\x02", q, "\x03", opt, "\x04", man).Replace(s)
+	if s[0] == 'C' {
+		s = macroC + s[1:]
+	}
+	s = strings.NewReplacer("\x00", e, "\x01", cond, "\x02", q, "\x03", opt, "\x04", man, "\x06", want).Replace(s)
 	if st.sp == spTight {
 		// a delimiter must not fuse with the expression into another lexeme
 		s = strings.ReplaceAll(s, "{{-", "{{ -")
@@ -129,6 +154,9 @@ func build(pos *position, in *inst, st style) rendering {
 		} else if typ == 'l' {
 			body = "{% for r in k %}{{ r }},{% endfor %}"
 		}
+		if pos.body != "" {
+			body = pos.body
+		}
 		r.sub = map[string]string{pos.sub: body}
 	}
 	return r
@@ -141,7 +169,23 @@ func expected(pos *position, v val) (string, bool) {
 		}
 		return fmt.Sprint(100 + v.i), true
 	}
+	switch pos.name {
+	case "spelling-length":
+		return fmt.Sprint(utf8.RuneCountInString(v.String())), true
+	case "array-join":
+		return "0," + v.String(), true
+	case "if-spelling":
+		return "T", true
+	}
 	return v.String(), true
+}
+
+// posType: the position type of an expression type (a large integer is an integer)
+func posType(t byte) rune {
+	if t == 'g' || t == 'm' {
+		return 'i'
+	}
+	return rune(t)
 }
 
 // ---- running twig
@@ -242,32 +286,36 @@ type class struct {
 	few   bool // only print / if / set
 	mid   bool // five parenthesis/spacing combinations instead of eight
 	rots  int  // how many leaf rotations to run (best first)
-	twin  bool // with rots = 1: also the best rotation of the other half (plain <-> comma leaves) in two styles
+	twin  bool // with rots = 1: also the best rotation of the other half (plain <-> comma leaves) in one style
 	cross bool // every parenthesis style x every spacing, plus all optional-parenthesis subsets
+	big   byte // large-integer typings: 0 all, 1 the representatives, 2 none (see genMode)
+	// routes: the stringification routes for every integer- or string-valued tree of the class; without
+	// it only for the trees in which a large integer occurs (leaf or intermediate result)
+	routes bool
 }
 
 func classes(thorough bool) []class {
 	if thorough {
 		return []class{
-			{k: 0, u: 0, rots: 12, cross: true},
-			{k: 0, u: 1, rots: 12, cross: true}, {k: 1, u: 0, rots: 12, cross: true},
-			{k: 0, u: 2, rots: 12, cross: true}, {k: 1, u: 1, rots: 12, cross: true}, {k: 2, u: 0, rots: 12, cross: true},
-			{k: 1, u: 2, rots: 2, cross: true}, {k: 2, u: 1, rots: 2, cross: true},
-			{k: 3, u: 0, rots: 2, cross: true},
-			{k: 2, u: 2, rots: 1, few: true, nsRep: true}, {k: 3, u: 1, rots: 1, few: true, nsRep: true},
-			{k: 4, u: 0, rots: 1, few: true, nsRep: true},
+			{k: 0, u: 0, rots: 12, cross: true, routes: true},
+			{k: 0, u: 1, rots: 12, cross: true, routes: true}, {k: 1, u: 0, rots: 12, cross: true, routes: true},
+			{k: 0, u: 2, rots: 12, cross: true, routes: true}, {k: 1, u: 1, rots: 12, cross: true, routes: true}, {k: 2, u: 0, rots: 12, cross: true, routes: true},
+			{k: 1, u: 2, rots: 2, cross: true, big: 1}, {k: 2, u: 1, rots: 2, cross: true, big: 1},
+			{k: 3, u: 0, rots: 2, cross: true, big: 1},
+			{k: 2, u: 2, rots: 1, few: true, nsRep: true, big: 2}, {k: 3, u: 1, rots: 1, few: true, nsRep: true, big: 2},
+			{k: 4, u: 0, rots: 1, few: true, nsRep: true, big: 2},
 		}
 	}
 	return []class{
-		{k: 0, u: 0, rots: 12},
-		{k: 0, u: 1, rots: 12}, {k: 1, u: 0, rots: 12},
-		{k: 0, u: 2, rots: 3}, {k: 1, u: 1, rots: 3}, {k: 2, u: 0, rots: 3},
-		{k: 2, u: 1, rots: 1, mid: true, twin: true},
-		{k: 3, u: 0, rots: 1, mid: true, twin: true},
+		{k: 0, u: 0, rots: 12, routes: true},
+		{k: 0, u: 1, rots: 12, routes: true}, {k: 1, u: 0, rots: 12, routes: true},
+		{k: 0, u: 2, rots: 3, routes: true}, {k: 1, u: 1, rots: 3, routes: true}, {k: 2, u: 0, rots: 3, routes: true},
+		{k: 2, u: 1, rots: 1, mid: true, twin: true, big: 2},
+		{k: 3, u: 0, rots: 1, mid: true, twin: true, big: 2},
 	}
 }
 
-func (c class) mode() genMode { return genMode{core: c.core, nsRep: c.nsRep} }
+func (c class) mode() genMode { return genMode{core: c.core, nsRep: c.nsRep, big: c.big} }
 
 func (c class) String() string {
 	s := fmt.Sprintf("k%du%d", c.k, c.u)
@@ -277,12 +325,15 @@ func (c class) String() string {
 	return s
 }
 
-var rootTypes = []byte{'i', 'b', 's', 'l'}
+var rootTypes = []byte{'i', 'b', 's', 'l', 'g'}
 
-func styles(c class, nopt uint, reduced bool) []style {
+func styles(c class, nopt uint, reduced, tight bool) []style {
 	var out []style
 	if reduced {
-		return []style{{par: parMin, sp: spNormal}, {par: parMin, sp: spTight}}
+		if tight {
+			return []style{{par: parMin, sp: spTight}}
+		}
+		return []style{{par: parMin, sp: spNormal}}
 	}
 	if c.cross {
 		for _, par := range []int{parMin, parFull, parMax, parRoot} {
@@ -345,7 +396,9 @@ type candidate struct {
 	structural int
 	dist       int
 	commas     int  // leaves whose spelling contains a comma inside brackets
-	reduced    bool // the twin of a single-rotation class: two styles only
+	large      bool // an integer leaf or intermediate result of magnitude >= 10^14 occurs
+	reduced    bool // the twin of a single-rotation class: one style only, min/normal or min/tight
+	tight      bool // with reduced: min/tight instead of min/normal (alternates with the skeleton)
 }
 
 // allCandidates: the well-defined, distinct leaf assignments of the skeleton in rotation order.
@@ -367,7 +420,7 @@ func allCandidates(sk *node) []candidate {
 			continue
 		}
 		st, d, _ := analyse(in, v)
-		cd := candidate{rot: r, in: in, v: v, trace: tr, structural: st, dist: d}
+		cd := candidate{rot: r, in: in, v: v, trace: tr, structural: st, dist: d, large: in.maxMagnitude() >= large}
 		for _, l := range in.leaves {
 			if l.comma {
 				cd.commas++
@@ -404,12 +457,15 @@ func ranked(all []candidate, commaFirst bool) []candidate {
 // alternates with the skeleton (a hash of its key), so that plain and comma-containing leaves both
 // occur throughout a class that runs a single rotation; with two or more rotations at least one has a
 // comma-containing leaf and at least one has none (when such assignments exist); with twin, the best
-// assignment of the other half is added in two styles.
+// assignment of the other half is added in one style (min/normal or min/tight, by another bit of the
+// hash; both styles until the large-integer dimension was added — the thorough tier runs both kinds of
+// leaves in every style).
 func chooseRotations(sk *node, key string, want int, twin bool) []candidate {
 	all := allCandidates(sk)
 	h := fnv.New32a()
 	h.Write([]byte(key))
-	commaFirst := h.Sum32()&1 == 1
+	hs := h.Sum32()
+	commaFirst := hs&1 == 1
 	cs := ranked(all, commaFirst)
 	if len(cs) <= want {
 		return cs
@@ -448,6 +504,7 @@ func chooseRotations(sk *node, key string, want int, twin bool) []candidate {
 			}
 			if !dup && (c.commas > 0) != (cs[0].commas > 0) {
 				c.reduced = true
+				c.tight = hs&2 == 2
 				cs = append(cs, c)
 				break
 			}
@@ -504,6 +561,9 @@ func runCase(sk *node, key string, c class) *vlib.Outcome {
 		if cd.commas > 0 {
 			o.Counters["trees_with_comma_leaves"]++
 		}
+		if cd.large {
+			o.Counters["trees_with_large_integers"]++
+		}
 		if in.root.nops >= 2 && cd.dist > 0 {
 			o.Nontrivial = true
 			o.Counters["trees_telling_the_table_from_a_wrong_one"]++
@@ -515,7 +575,7 @@ func runCase(sk *node, key string, c class) *vlib.Outcome {
 		_, nopt := in.print(style{par: parMin})
 		kfApplies := in.hasUnaryOnIndex()
 		negZeroOut, negZeroApplies := in.negativeZeroQuirk()
-		for _, st := range styles(c, nopt, cd.reduced) {
+		for _, st := range styles(c, nopt, cd.reduced, cd.tight) {
 			// printer self-test: the printed form read with the stated table is the tree itself
 			src, _ := in.print(st)
 			pn, err := parseWith(src, stated, in.leaves)
@@ -526,18 +586,30 @@ func runCase(sk *node, key string, c class) *vlib.Outcome {
 			}
 			for pi := range positions {
 				pos := &positions[pi]
-				if !strings.ContainsRune(pos.types, rune(in.root.typ)) || (c.few && !fewPositions[pos.name]) {
+				if !strings.ContainsRune(pos.types, posType(in.root.typ)) || (c.few && !fewPositions[pos.name]) {
+					continue
+				}
+				if pos.route && !c.routes && !cd.large {
 					continue
 				}
 				want, ok := expected(pos, cd.v)
 				if !ok {
 					continue
 				}
-				r := build(pos, in, st)
+				r := build(pos, in, st, cd.v.String())
 				got, _ := render(r, in.leaves)
 				o.Counters["renders"]++
 				if cd.commas > 0 {
 					o.Counters["renders_with_comma_leaves"]++
+				}
+				if cd.large {
+					o.Counters["renders_with_large_integers"]++
+				}
+				if pos.route {
+					o.Counters["renders_through_stringification_routes"]++
+					if cd.large {
+						o.Counters["renders_of_large_integers_through_stringification_routes"]++
+					}
 				}
 				if got == want {
 					continue
@@ -546,7 +618,7 @@ func runCase(sk *node, key string, c class) *vlib.Outcome {
 				if kfApplies && st.par != parMax {
 					qs := st
 					qs.quirk = true
-					qgot, _ := render(build(pos, in, qs), in.leaves)
+					qgot, _ := render(build(pos, in, qs, cd.v.String()), in.leaves)
 					explained = qgot == got
 					if explained {
 						kf1++
@@ -572,7 +644,7 @@ func runCase(sk *node, key string, c class) *vlib.Outcome {
 				if in.root.typ == 'l' {
 					tp = forSeq
 				}
-				r := build(tp, in, st)
+				r := build(tp, in, st, "")
 				got, tr := render(r, in.leaves)
 				o.Counters["traced_renders"]++
 				o.Counters["renders"]++
@@ -709,7 +781,7 @@ func main() {
 					s += ", core operators only"
 				}
 				if c.twin {
-					s += ", plus the best rotation of the other leaf kind (plain <-> comma-containing) in min/normal and min/tight"
+					s += ", plus the best rotation of the other leaf kind (plain <-> comma-containing) in min/normal or min/tight (alternating by skeleton)"
 				}
 				if c.nsRep {
 					s += ", numeric strings only under < >= (n,n), == (n,i), != (i,n) and as i ~ i"
